@@ -25,6 +25,14 @@ BUDGET_S = {"quick": 100, "thorough": 1200}
 def gen(rng, tier):
     n_cases = 200 if tier == "quick" else 3000
     for k in range(n_cases):
+        if k % 8 == 5:
+            # systematic: strict mode with a depot window that closes exactly when the latest customer window closes, so that every
+            # return arc with positive travel time out of that customer is subject to (and fails) the strict rule
+            spec, info = VU.gen_planted(rng, extra_arc_p=rng.choice([0.3, 0.6]), wide=True)
+            his = [Fraction(nd["hi"]) for nd in spec["nodes"][1:] if nd["hi"] != "inf"]
+            spec["nodes"][0]["hi"] = fs(max(his + [Fraction(2)]) + Fraction(rng.choice([0, 0, 1])))
+            yield dict(form="seq", spec=spec, strict=True, seed=rng.randrange(10 ** 6), V=info["V"], L=max(3, info["Lmin"]))
+            continue
         if k % 4 != 3:
             spec, info = VU.gen_planted(rng, extra_arc_p=rng.choice([0.1, 0.3, 0.6]), wide=True)
             case = dict(form="seq", spec=spec, strict=rng.random() < 0.4, seed=rng.randrange(10 ** 6),
